@@ -9,7 +9,7 @@ Extraction "extract/c19_model.ml" extr_anchor
   g96_write_line g96_read_line g96_write_box read_floats
   xyz_write_line xyz_read_line xyz_write_box xyz_header_box xyz_frame
   swap_integer decode_header decode_frame encode_frame trr_frame_at
-  mdp_edit mdp_read mdp_get cp2k_update_data cp2k_new_data lmp_write_for_run
+  mdp_edit mdp_read mdp_get cp2k_update_data cp2k_new_data lmp_write_for_run lmp_impl_write_for_run lmp_line_clean
   reverse_velocities lmp_read_rows shift_boxbounds
   cp2k_read cp2k_print cp2k_refs cp2k_apply
   fx_get fx_read fx_run fx_trace.
